@@ -9,8 +9,10 @@ OPTS = ['--no-blocks', '--no-intrinsics', '--no-arguments', '--no-diff-switches'
 ALL_SUBSETS = [list(c) for n in range(len(OPTS) + 1) for c in itertools.combinations(OPTS, n)]
 DEFAULT_MAPS = {'truanm': 'map/any.anmm', 'trustd': 'map/any.stdm', 'trumsg': 'map/any.msgm', 'truecl': 'map/any.eclm'}
 
-def cli(args, cwd, timeout=20):
-    return sh([harness_bin('truth-cli')] + args, cwd=cwd, timeout=timeout)
+CLI_TIMEOUT = [30]
+
+def cli(args, cwd, timeout=None):
+    return sh([harness_bin('truth-cli')] + args, cwd=cwd, timeout=timeout or CLI_TIMEOUT[0])
 
 def game_of(fname):
     g = os.path.basename(fname).split('-')[0]
@@ -44,6 +46,8 @@ def roundtrip(job):
     cargs = [job['tool'], 'compile', '-g', job['game'], txt, '-o', out] + margs
     if job['tool'] == 'truanm': cargs += ['-i', job['binary']]
     rc, err2 = cli(cargs, cwd=REPO)
+    if rc == 124:
+        res.update(status='recompile-timeout', stderr=err2[-500:]); return res
     if rc != 0:
         res.update(status='recompile-failed', stderr=err2[-800:], text=open(txt, errors='replace').read()[:4000]); return res
     a, b = open(job['binary'], 'rb').read(), open(out, 'rb').read()
@@ -120,7 +124,14 @@ def main(argv):
 
     with ThreadPoolExecutor(16) as ex:
         results = list(ex.map(roundtrip, jobs))
-    hist = {}
+    # a timeout under parallel load is not a verdict: re-run those round trips alone with a generous limit
+    retried = 0
+    CLI_TIMEOUT[0] = 300
+    for i, r in enumerate(results):
+        if r['status'].endswith('-timeout'):
+            retried += 1
+            results[i] = roundtrip(jobs[i])
+    hist = {'retried-after-timeout': retried}
     for r in results: hist[r['status']] = hist.get(r['status'], 0) + 1
     bad = [r for r in results if r['status'] not in ('ok', 'skipped-warning')]
     unknown = [r for r in bad if not v.is_known('c01:%s:%s' % (r['status'], r['job']['tag']))]
